@@ -59,6 +59,9 @@ int main(int argc, char** argv) {
                 Deck d(t);
                 std::cout << "tape-of " << w[1] << " " << dumpDeck(d, varidx) << "\n";
                 std::cout << "tape-clauses " << w[1] << " " << dumpTape(*d.tape) << "\n";
+                // number of distinct nodes Deck::Deck walked (= its first clause id); pointer order may differ
+                // between two optimized() calls, the node count does not
+                std::cout << "tape-nflat " << w[1] << " " << t.optimized().walk().size() << "\n";
                 std::cout << "tape-opt " << w[1] << " " << dump(t.optimized()) << "\n";
             } else if (w[0] == "eval" || w[0] == "batch") {
                 const Tree& t = prog.at(w[1]);
